@@ -466,13 +466,59 @@ def r4_pawn_geometry(ctx):
         pawns = ('fld', ('idx', ('fld', ('fld', ('der', ('p', 1)), own), 'bitboards'), C(facts.variant_discr(PIECE_ADT, 'Pawn'))), '0')
         occ_own = ('fld', ('fld', ('fld', ('der', ('p', 1)), own), 'occupied'), '0')
         occ_opp = ('fld', ('fld', ('fld', ('der', ('p', 1)), opp), 'occupied'), '0')
+        scan_env = {}
+
+        def bitscan_of(o):
+            """bit-scan iteration (`while let Some(sq) = squares.pop_lsb()`, or an Iterator wrapping it): a loop-carried bitboard R that starts
+            as the own pawns, is tested non-empty, yields the element 1 << tz(R) and continues with R & !(1 << tz(R)).  Such a loop visits
+            every set bit of the pawn set exactly once; R may occur on the path only through tz(R) and the non-empty test, so binding
+            tz(R) to a pawn's index (and R to that single bit) evaluates the iteration for that pawn."""
+            heads = [e for e in o.events if e[0] == 'loop_head']
+            if not heads or not o.locals:
+                return None
+            h = heads[-1]
+            for l, init in h[3].items():
+                r0 = None
+                for s in subterms(o.locals.get(l, ('unk',))):
+                    if s[0] == 'bin' and s[1] == 'BitAnd' and s[3][0] == 'un' and s[3][1] == 'Not' and s[3][2] == ('bin', 'Shl', C(1), ('call', 'trailing_zeros', (s[2],), None)):
+                        r0 = s[2]
+                if r0 is None or not any(x == ('lv', h[2], l) for x in subterms(r0)):
+                    continue
+                src = init
+                while src[0] in ('call', 'agg'):
+                    if src[0] == 'call' and src[1].endswith('into_iter') and len(src[2]) == 1:
+                        src = src[2][0]
+                    elif src[0] == 'agg' and len(src[4]) == 1:
+                        src = src[4][0][1]
+                    else:
+                        break
+                if src != pawns and ('fld', src, '0') != pawns:
+                    continue
+                nonempty = any(a == r0 and isinstance(v, tuple) and v[0] == 'not' and 0 in v[1] for a, v in o.conds)
+                tz = ('call', 'trailing_zeros', (r0,), None)
+                # every other occurrence of R on the path is inside tz(R)
+                def only_via_tz(t_):
+                    if t_ == tz:
+                        return True
+                    if t_ == r0:
+                        return False
+                    return all(only_via_tz(x) for x in t_[1:] if isinstance(x, tuple) and x and isinstance(x[0], str)) if isinstance(t_, tuple) else True
+                clean = all(only_via_tz(a) for a, v in o.conds if a != r0) and all(
+                    only_via_tz(x) for e in o.events if e[0] == 'call' and e[1].endswith('::push') for x in e[2][1:])
+                if nonempty and clean:
+                    scan_env[id(o)] = r0
+                    return tz
+            return None
+
         def idx_of(o):
             found = set()
             for a, v in o.conds:
                 for s in subterms(a):
                     if s[0] == 'fld' and s[2] == 'Some.0' and s[1][0] == 'call' and s[1][1].endswith('::next'):
                         found.add(s)
-            return next(iter(found)) if len(found) == 1 else None
+            if len(found) == 1:
+                return next(iter(found))
+            return bitscan_of(o)
         if not its or any(idx_of(o) is None for o in its):
             ctx.anchor_missing(rule, name, '%s: loop index not found' % col)
             continue
@@ -498,7 +544,12 @@ def r4_pawn_geometry(ctx):
                         elif c == 2:
                             op |= 1 << sqi
                     env = {pawns: ownp, occ_own: oo, occ_opp: op}
-                    ms = matching(its, env, skip=lambda a: a[0] == 'discr' or has_call(a, 'inline_size'), envf=lambda o: {idx_of(o): p})
+                    def per_path(o, p=p):
+                        e_ = {idx_of(o): p}
+                        if id(o) in scan_env:
+                            e_[scan_env[id(o)]] = 1 << p
+                        return e_
+                    ms = matching(its, env, skip=lambda a: a[0] == 'discr' or has_call(a, 'inline_size'), envf=per_path)
                     if not ms:
                         bad.append((sq_name(1 << p), (c1, c2), 'paths=0'))
                         continue
